@@ -459,7 +459,7 @@ def to_trace(r: dict) -> dict:
     job, ev = r['job'], r['events']
     cfg = job['cfg']
     jb = ev[0]
-    keys = sorted(D.lab_context(1, cfg['n']).keys())
+    keys = D.lab_context(1, cfg['n'])
     ck = [U.expected_ctx_keys(cfg['typ'][t - 1], t, keys) for t in range(1, cfg['n'] + 1)]
     t = monitor.to_monitor(job['id'], cfg, ev[1:], real=True, caller_pid=jb['pid'], mark=jb['mark'], ctxkeys=ck)
     t['meta'] = {'hang': r['hang'], 'unused_actions': r['unused_actions'], 'events': len(ev)}
